@@ -120,3 +120,37 @@ def norm_comment(tok):
 def norm_tree(tree):
     return [norm_tree(t) if isinstance(t, list) else norm_comment(t)
             for t in tree]
+
+
+class CharSeq:
+    """A text given as a Python list of one-character strings (concrete or
+    symbolic).  Offers the part of the str interface that both readers use
+    (len, indexing, slicing to str): indexing a Python list is cheap, while
+    indexing a long symbolic concatenation goes through the solver."""
+
+    def __init__(self, chars):
+        self.chars = chars
+
+    def __len__(self):
+        return len(self.chars)
+
+    def __getitem__(self, i):
+        if isinstance(i, slice):
+            return ''.join(self.chars[i])
+        return self.chars[i]
+
+
+def explode(pieces):
+    """CharSeq of the concatenation of ``pieces`` (strings); concrete pieces
+    are split natively."""
+    from crosshair.tracers import NoTracing
+    chars = []
+    for p in pieces:
+        with NoTracing():
+            concrete = type(p) is str
+            if concrete:
+                chars.extend(p)
+        if not concrete:
+            for j in range(len(p)):
+                chars.append(p[j])
+    return CharSeq(chars)
